@@ -64,6 +64,8 @@ def insecure_top_battery(repo):
               file) echo x > $R/.Trash;;
             esac
             T=$R/.Trash/$uid
+            # as trash-put leaves it: private
+            [ -d $T ] && chmod 700 $T
             if [ -d $T ]; then printf '[Trash Info]\nPath=old\nDeletionDate=2000-01-01T00:00:00\n' > $T/info/old.trashinfo; echo p > $T/files/old; fi
             mkdir $R/w; echo n > $R/w/new
             $PY $B/trash-put $R/w/new; echo "put $? $(ls $R/.Trash-$uid/files 2>/dev/null | tr '\n' ' ')"
